@@ -398,7 +398,10 @@ seg_mem(struct crypto_aesctr ** streamp, const char * flags, int first,
 
 	/* Reference. */
 	refb = vh_exact(NULL, L, &fref);
-	if (far && startblk > (UINT64_MAX - L) / 16)
+	/* the stream may end exactly at byte 2^64 (block 2^60 - 1 is its last block) */
+	if (far && (startblk > ((uint64_t)1 << 60) ||
+	    (uint64_t)L / 16 > ((uint64_t)1 << 60) - startblk ||
+	    ((uint64_t)L / 16 == ((uint64_t)1 << 60) - startblk && L % 16 != 0)))
 		vh_die("start block beyond the 64-bit byte position");
 	refaes_ctr(eff->rk, eff->nr, nonce, 16 * startblk, data, refb, L);
 	for (j = 0; j < L; j++) {
